@@ -2,7 +2,6 @@ SPECIFICATION Spec
 CONSTANTS
   Keys = {"k1", "k2", "k3"}
   Payloads = {"p", "q"}
-  MaxSteps = 7
-VIEW view
-INVARIANTS RoundTrip Isolation NoClobber ErrorsReported RetrieveExact
+  MaxSteps = 10
+INVARIANTS RoundTrip Isolation NoClobber ErrorsReported RetrieveExact PrintScript
 CHECK_DEADLOCK FALSE
